@@ -13,13 +13,16 @@ import (
 
 	btcExecutor "github.com/ChainSafe/sygma-relayer/chains/btc/executor"
 	btcListener "github.com/ChainSafe/sygma-relayer/chains/btc/listener"
+	"github.com/ChainSafe/sygma-relayer/chains/evm/calls/events"
 	"github.com/ChainSafe/sygma-relayer/chains/evm/executor"
+	"github.com/ChainSafe/sygma-relayer/chains/evm/listener/eventHandlers"
 	"github.com/ChainSafe/sygma-relayer/chains/evm/listener/depositHandlers"
 	subExecutor "github.com/ChainSafe/sygma-relayer/chains/substrate/executor"
 	subListener "github.com/ChainSafe/sygma-relayer/chains/substrate/listener"
 	"github.com/ChainSafe/sygma-relayer/relayer/transfer"
 	"github.com/centrifuge/go-substrate-rpc-client/v4/types"
 	"github.com/ethereum/go-ethereum/common"
+	ethTypes "github.com/ethereum/go-ethereum/core/types"
 	"github.com/sygmaprotocol/sygma-core/relayer/message"
 	"github.com/sygmaprotocol/sygma-core/relayer/proposal"
 )
@@ -152,6 +155,41 @@ func init() {
 		msg, cls := c01Source(a[0], s, d, u64(a[4]), rid32(a[5]), a[6], a[7])
 		if cls != "ok" {
 			return cls + ":src"
+		}
+		p, cls := c01Dest(a[1], msg)
+		if cls != "ok" {
+			return cls + ":dst"
+		}
+		return showProposal(p)
+	}
+	// e2e <kind> <dstKind> <src> <dst> <nonce> <rid> <calldata> <resp>   (EVM sources; last byte of rid selects the handler)
+	//   the deposit travels as a packed Deposit log through the real events.Listener.FetchDeposits, the real
+	//   DepositEventHandler.ProcessDeposits (handler table resolved from the resource id) and the destination handler
+	//   => ok:… | none (no message produced) | err:dst | panic:dst
+	ops["C01.e2e"] = func(a []string) string {
+		s, d := uint8(u64(a[2])), uint8(u64(a[3]))
+		data, err := c06ABI.Events["Deposit"].Inputs.NonIndexed().Pack(d, rid32(a[5]), u64(a[4]), unhx(a[6]), unhx(a[7]))
+		if err != nil {
+			panic(err)
+		}
+		user := common.HexToHash("0xaa")
+		cl := &c06Client{deposits: []ethTypes.Log{{Address: c06Bridge, Topics: []common.Hash{events.DepositSig.GetTopic(), user}, Data: data}}}
+		eh := eventHandlers.NewDepositEventHandler(events.NewListener(cl), c06EthHandler(), c06Bridge, s, make(chan []*message.Message, 4))
+		out, err := eh.ProcessDeposits(big.NewInt(1), big.NewInt(2))
+		if err != nil {
+			return "err"
+		}
+		var msg *message.Message
+		for _, ms := range out {
+			for _, m := range ms {
+				if msg != nil {
+					return "two-messages"
+				}
+				msg = m
+			}
+		}
+		if msg == nil {
+			return "none"
 		}
 		p, cls := c01Dest(a[1], msg)
 		if cls != "ok" {
@@ -503,6 +541,33 @@ func genC01(g *G) {
 		emit("erc721", dk, hx(g.erc721CD()), hx(g.resp()))
 		emit("erc1155", dk, hx(g.erc1155CD()), hx(g.resp()))
 		emit("generic", dk, hx(g.genericCD()), hx(g.resp()))
+	}
+	// the same deposits as event logs through the real listener and ProcessDeposits (in-range calldata only: inside a log the
+	// calldata slice has spare capacity, so out-of-range slice expressions behave differently from the cap = len model)
+	code := map[string]byte{"erc20": 1, "erc721": 2, "erc1155": 3, "generic": 4}
+	for i := 0; i < g.Count(150, 10000); i++ {
+		for _, k := range []string{"erc20", "erc721", "erc1155", "generic"} {
+			var cd []byte
+			switch k {
+			case "erc20":
+				cd = g.fungibleCD(g.Intn(3) == 0)
+			case "erc721":
+				cd = g.erc721CD()
+			case "erc1155":
+				cd = g.erc1155CD()
+			default:
+				cd = g.genericCD()
+			}
+			resp := [][]byte{nil, nil, w32(g.big256()), g.Bytes(33 + g.Intn(40))}[g.Intn(4)]
+			s, d, n, _ := g.ids()
+			rid := g.Bytes(32)
+			rid[31] = code[k]
+			dk := "evm"
+			if k == "erc20" || g.Intn(8) == 0 {
+				dk = g.Pick(dsts)
+			}
+			g.Emit("e2e", k, dk, s, d, n, hx(rid), hx(cd), hx(resp))
+		}
 	}
 	// malformed stream (shared shape with C06)
 	m := g.Count(250, 20000)
